@@ -53,6 +53,17 @@ def _one_file(wd: str, cases: List[Dict], fileno: int) -> List[Dict]:
         segs = [AlignmentSegment(pos[a:b], conf if a == 0 else 0., Peak(0, 1.), pos) for a, b in zip(bounds, bounds[1:])]
         rows.append(AlignmentResultRow.create(SimpleNamespace(segments=segs), 2 * k + 1, 2 * k, qm.length, rm.length,
                                               c["rev"]))
+    # what the writer is handed (read from the row objects before the file is written; reading a row is not an event)
+    def d10(v):
+        return int(round(float(v) * 10))
+    given = {}
+    for row in rows:
+        given[int(row.queryId)] = {
+            "q": int(row.queryId), "r": int(row.referenceId), "rev": bool(row.reverseStrand),
+            "qs": d10(row.queryStartPosition), "qe": d10(row.queryEndPosition), "rs": d10(row.referenceStartPosition),
+            "re": d10(row.referenceEndPosition), "qlen": d10(row.queryLength), "rlen": d10(row.referenceLength),
+            "conf1000": int(round(float(row.confidence) * 1000)), "hit": pipe_common.hit_codes(row.cigarString),
+            "pairs": [[int(p.reference.siteId), int(p.query.siteId)] for p in row.alignedPairs]}
     out = os.path.join(wd, f"rt{fileno}.xmap")
     args = pipeline.make_args(pipeline.arg_list(rp, qp, out, "best"))
     writer = XmapReader(XmapAlignmentPairWithDistanceParser(list(rmaps.values()), list(qmaps.values())))
@@ -79,6 +90,9 @@ def _one_file(wd: str, cases: List[Dict], fileno: int) -> List[Dict]:
         if rb is not None and kth <= len(rb):
             line["kind"] = "readback"
             line["rb"] = rb[kth - 1]
+            if r["q"] in given:
+                line["kind"] = "readbackg"
+                line["given"] = given[r["q"]]
         lines.append(line)
     return [{"lines": lines, "n_cases": len(cases), "n_records": len(recs), "malformed": len(parsed["records"]) - len(recs),
              "readback": rb_status, "readback_n": len(rb) if rb is not None else -1, "header_ok": parsed["header_ok"]}]
